@@ -3,7 +3,7 @@
 followed by all 19 quick checks on each copy.  Every check must stay silent (rc 0) on every copy: a non-zero rc is a defect
 of the checks (brittleness against the spelling of the code), never of the code.
 
-    tools/mechanical.py [kind ...]        kinds: unparse locals invert splitand methods attrs flags whiletrue guard ternary augassign format percent continue elsereturn flipcmp hoist match walrus tryelse bindmethods chained nextfind static   (default: all)
+    tools/mechanical.py [kind ...]        kinds: unparse locals invert splitand methods attrs flags whiletrue guard ternary augassign format percent continue elsereturn flipcmp hoist match walrus tryelse bindmethods chained nextfind static indexloop aliasinit   (default: all)
 
 Not a registered check: it exercises the checks, it decides no property."""
 import ast, os, shutil, subprocess, sys, tempfile, builtins
@@ -438,6 +438,59 @@ class StaticMethods(ast.NodeTransformer):
         return c
 
 
+
+class IndexLoop(ast.NodeTransformer):
+    """for n in range(len(L)): v = L[n]; ...  (n not used otherwise)   ->   for v in L: ..."""
+
+    def visit_For(self, f):
+        self.generic_visit(f)
+        it = f.iter
+        if isinstance(f.target, ast.Name) and isinstance(it, ast.Call) and isinstance(it.func, ast.Name) and it.func.id == "range" and len(it.args) == 1 \
+                and isinstance(it.args[0], ast.Call) and isinstance(it.args[0].func, ast.Name) and it.args[0].func.id == "len" and len(it.args[0].args) == 1 \
+                and isinstance(it.args[0].args[0], ast.Name) and f.body and isinstance(f.body[0], ast.Assign) and len(f.body[0].targets) == 1 and isinstance(f.body[0].targets[0], ast.Name) \
+                and isinstance(f.body[0].value, ast.Subscript) and isinstance(f.body[0].value.value, ast.Name) and f.body[0].value.value.id == it.args[0].args[0].id \
+                and isinstance(f.body[0].value.slice, ast.Name) and f.body[0].value.slice.id == f.target.id:
+            n, L = f.target.id, it.args[0].args[0].id
+            rest = f.body[1:]
+            if not any(isinstance(x, ast.Name) and x.id in (n,) for b in rest for x in ast.walk(b)) and not any(isinstance(x, ast.Name) and x.id == L and isinstance(x.ctx, ast.Store) for b in rest for x in ast.walk(b)) and rest:
+                f.target = f.body[0].targets[0]
+                f.iter = ast.Name(id=L, ctx=ast.Load())
+                f.body = rest
+        return f
+
+
+class AliasInitAttrs(ast.NodeTransformer):
+    """in a method that contains a loop: `self.X` (X assigned in __init__ only, program wide, and read at least twice) is bound to a
+    local at the top of the method and read through it"""
+
+    def visit_FunctionDef(self, f):
+        if not f.args.args or f.args.args[0].arg != "self" or f.name == "__init__" or f.decorator_list or not any(isinstance(n, (ast.For, ast.While)) for n in ast.walk(f)):
+            return f
+        if any(isinstance(n, (ast.Lambda, ast.FunctionDef, ast.GeneratorExp, ast.ListComp, ast.SetComp, ast.DictComp)) for b in f.body for n in ast.walk(b)):
+            return f
+        reads = {}
+        for n in ast.walk(f):
+            if isinstance(n, ast.Attribute) and isinstance(n.value, ast.Name) and n.value.id == "self" and isinstance(n.ctx, ast.Load) and n.attr in self.stable:
+                reads[n.attr] = reads.get(n.attr, 0) + 1
+        used = {n.id for n in ast.walk(f) if isinstance(n, ast.Name)}
+        pick = {a: a + "_l" for a, k in reads.items() if k >= 2 and a + "_l" not in used}
+        if not pick:
+            return f
+
+        class R(ast.NodeTransformer):
+            def visit_Attribute(self_, n):
+                self_.generic_visit(n)
+                if isinstance(n.value, ast.Name) and n.value.id == "self" and isinstance(n.ctx, ast.Load) and n.attr in pick:
+                    return ast.Name(id=pick[n.attr], ctx=ast.Load())
+                return n
+
+        doc = f.body[:1] if f.body and isinstance(f.body[0], ast.Expr) and isinstance(f.body[0].value, ast.Constant) else []
+        rest = [R().visit(b) for b in f.body[len(doc):]]
+        binds = [ast.Assign(targets=[ast.Name(id=l, ctx=ast.Store())], value=ast.Attribute(value=ast.Name(id="self", ctx=ast.Load()), attr=a, ctx=ast.Load())) for a, l in sorted(pick.items())]
+        f.body = doc + binds + rest
+        return f
+
+
 def hoist_attrs(trees):
     """in every method: `self.<attr>` that is bound only in __init__ (never rebound anywhere in the program) and read at least
     twice is read once into a local at the top of the method (an alias of the same object)"""
@@ -607,6 +660,21 @@ def make(kind, dst):
         sm.unique = {k for k, v in counts.items() if v == 1}
         for p, t in trees.items():
             trees[p] = sm.visit(t)
+    elif kind == "indexloop":
+        for p, t in trees.items():
+            trees[p] = IndexLoop().visit(t)
+    elif kind == "aliasinit":
+        stored_in = {}
+        for t in trees.values():
+            for fn in ast.walk(t):
+                if isinstance(fn, (ast.FunctionDef, ast.AsyncFunctionDef)):
+                    for n in ast.walk(fn):
+                        if isinstance(n, ast.Attribute) and isinstance(n.ctx, (ast.Store, ast.Del)):
+                            stored_in.setdefault(n.attr, set()).add(fn.name)
+        ai = AliasInitAttrs()
+        ai.stable = {a for a, fs in stored_in.items() if fs == {"__init__"}}
+        for p, t in trees.items():
+            trees[p] = ai.visit(t)
     elif kind == "hoist":
         hoist_attrs(trees)
     elif kind == "methods":
@@ -623,7 +691,7 @@ def make(kind, dst):
 
 
 def main():
-    kinds = sys.argv[1:] or ["unparse", "locals", "invert", "splitand", "methods", "attrs", "flags", "whiletrue", "guard", "ternary", "augassign", "format", "percent", "continue", "elsereturn", "flipcmp", "hoist", "match", "walrus", "tryelse", "bindmethods", "chained", "nextfind", "static"]
+    kinds = sys.argv[1:] or ["unparse", "locals", "invert", "splitand", "methods", "attrs", "flags", "whiletrue", "guard", "ternary", "augassign", "format", "percent", "continue", "elsereturn", "flipcmp", "hoist", "match", "walrus", "tryelse", "bindmethods", "chained", "nextfind", "static", "indexloop", "aliasinit"]
     bad = 0
     for kind in kinds:
         tmp = tempfile.mkdtemp(prefix=f"pyrtma-mech-{kind}-")
